@@ -1,0 +1,42 @@
+//go:build verif
+
+package quic
+
+// Export shims for the C05 (packet protection) check of the verification harness in /verif.
+// Compiled only with -tags verif. Add-only, no behaviour change: they construct the unexported
+// packetUnpacker and forward to the packer's unexported encryptPacket step.
+
+import (
+	"github.com/refraction-networking/uquic/internal/handshake"
+	"github.com/refraction-networking/uquic/internal/monotime"
+	"github.com/refraction-networking/uquic/internal/protocol"
+	"github.com/refraction-networking/uquic/internal/wire"
+)
+
+// VerifPacketUnpacker wraps the connection's packetUnpacker.
+type VerifPacketUnpacker struct{ u *packetUnpacker }
+
+// VerifNewPacketUnpacker is newPacketUnpacker.
+func VerifNewPacketUnpacker(cs handshake.CryptoSetup, shortHdrConnIDLen int) *VerifPacketUnpacker {
+	return &VerifPacketUnpacker{u: newPacketUnpacker(cs, shortHdrConnIDLen)}
+}
+
+// UnpackLongHeader is packetUnpacker.UnpackLongHeader; the unexported result struct is flattened.
+func (v *VerifPacketUnpacker) UnpackLongHeader(hdr *wire.Header, data []byte) (*wire.ExtendedHeader, protocol.EncryptionLevel, []byte, error) {
+	p, err := v.u.UnpackLongHeader(hdr, data)
+	if err != nil {
+		return nil, 0, nil, err
+	}
+	return p.hdr, p.encryptionLevel, p.data, nil
+}
+
+// UnpackShortHeader is packetUnpacker.UnpackShortHeader.
+func (v *VerifPacketUnpacker) UnpackShortHeader(rcvTime monotime.Time, data []byte) (protocol.PacketNumber, protocol.PacketNumberLen, protocol.KeyPhaseBit, []byte, error) {
+	return v.u.UnpackShortHeader(rcvTime, data)
+}
+
+// VerifEncryptPacket is packetPacker.encryptPacket (AEAD seal in place + header protection). raw holds
+// header||payload and must have capacity for the AEAD overhead, as the packer's buffers do.
+func VerifEncryptPacket(raw []byte, sealer handshake.LongHeaderSealer, pn protocol.PacketNumber, payloadOffset, pnLen protocol.ByteCount) []byte {
+	return (&packetPacker{}).encryptPacket(raw, sealer, pn, payloadOffset, pnLen)
+}
